@@ -59,6 +59,10 @@ type scen struct {
 	J         int  // folGenuine: number of bursts let through
 	Horizon   time.Duration
 	Storm     int // storm size (default 200)
+	// SendFail k > 0: the k-th WriteTo of X (counted from the start of the scenario) is refused once by the transport
+	// with a temporary, non-timeout net.Error (ECONNREFUSED-like). Whatever the library makes of a failed send —
+	// give up, or carry on — what it emits afterwards is still bound by the timer law and by the input bound.
+	SendFail int
 }
 
 func (s scen) id() string {
@@ -67,6 +71,9 @@ func (s scen) id() string {
 		bo = "nobo"
 	}
 	id := fmt.Sprintf("%s/%s%d/%s/%v/%s", s.V.Name, s.X.String()[:1], s.K, s.Mode, s.Ivl, bo)
+	if s.SendFail > 0 {
+		id += fmt.Sprintf("/sendfail%d", s.SendFail)
+	}
 	if s.Fol != folNone {
 		tgt := "X"
 		if s.ToPeer {
@@ -188,6 +195,13 @@ func execute(w *world.World, p *world.PKI, sc scen) (res result) {
 		d.pr.CloseAll()
 	}()
 	X, P := sc.X, sc.X.other()
+	if sc.SendFail > 0 {
+		ep := d.pr.C
+		if X == srv {
+			ep = d.pr.S
+		}
+		ep.PC.FailWriteNumber(sc.SendFail, world.TempNetErr{})
+	}
 	storm := sc.Storm
 	if storm == 0 {
 		storm = 200
@@ -235,7 +249,8 @@ func execute(w *world.World, p *world.PKI, sc scen) (res result) {
 	}
 	end := res.CutAt + hz + 333*time.Microsecond
 	res.End = end
-	if !res.CutReached && res.ToX != sc.K && sc.K >= 0 {
+	if !res.CutReached && res.ToX != sc.K && sc.K >= 0 && sc.SendFail == 0 {
+		// (with a refused send the handshake may have ended before the cut: what follows is observed all the same)
 		res.HarnessErr = fmt.Sprintf("cut index %d out of range (%d datagrams towards %s)", sc.K, res.ToX, X)
 		return res
 	}
